@@ -135,6 +135,23 @@ def probe_node(inp) -> ProbeResult:
         res.fail("input_modified", "the input column list was modified")
     exact = list(inp["required"]) + ["seg_id"]
     _check(res, src, mapping, exact)
+    # the result belongs to the caller (builders edit it in place): editing it must not leak
+    # into a later inference on the same inputs
+    import copy
+
+    first = copy.deepcopy(mapping)
+    if isinstance(mapping, dict):
+        for k in list(mapping)[:2]:
+            mapping[k] = None
+        mapping["__edited__"] = "x"
+        try:
+            again = infer_node_name_map(list(src), list(inp["required"]), avail)
+        except Exception as e:  # noqa: BLE001
+            res.fail(f"exception_second_call:{type(e).__name__}", f"second inference raised {e!r}")
+            return res
+        if again != first:
+            res.fail("not_a_function_of_its_inputs",
+                     f"columns {src}: a second inference after the caller edited the first result gives {again}, first was {first}")
     if any(k in src for k in exact):
         res.tags.append("c17:exact_required_present")
     if _similar(src, STANDARD + FEATURE_KEYS + DISPLAY):
